@@ -10,6 +10,8 @@ frame facts for all programs: a successful run never changes an input-owned bloc
 from __future__ import annotations
 
 import json
+import os
+import subprocess
 
 from .. import kernels, kruns, problems
 from ..core import Check, Driver
@@ -85,10 +87,14 @@ def zero_dimension_overflow(chk: Check, drv: Driver):
         return
     sizes = {"i": 65536, "j": 65536, "k": 0}
     ins = {"b": ({}, (65536, 65536, 0))}
-    rep = drv.batch([kernels.exec_request(pr.func("evaluate"), pr.heap(sizes, ins), 10)])[0]
+    # the heap is written down directly (building a 65536 x 65536 x 0 dense Tensor through the library walks 4e9 positions)
+    dims = [65536, 65536, 0]
+    heap = [kernels.empty_output_sx("a", dims, ("d", "d", "d")),
+            kernels.Raw(dims, ("d", "d", "d"), (0, 1, 2), [("d",), ("d",), ("d",)], []).heap_sx("b")]
+    rep = drv.batch([kernels.exec_request(pr.func("evaluate"), heap, 10)])[0]
     mr = kernels.MachineResult(rep)
     chk.count("zero_dimension_witness_runs")
-    case = pr.case(sizes, ins, kernel="evaluate")
+    case = {"assignment": pr.text, "formats": pr.fs, "dimensions": dims, "kernel": "evaluate"}
     if (not mr.ok) and mr.err == "intOverflow":
         f = chk.match_known(lambda f: f.get("signature", {}).get("predicate") == "zero-dimension-prefix-product-overflow")
         if f:
